@@ -270,23 +270,12 @@ func (u *Unmarshaler) fillSliceValue(slice reflect.Value, index int,
 	default:
 		// don't need to consider the difference between int, int8, int16, int32, int64,
 		// uint, uint8, uint16, uint32, uint64, because they're handled as json.Number.
-		if ithVal.Kind() == reflect.Ptr {
-			baseType := Deref(ithVal.Type())
-			if baseType.Kind() != reflect.TypeOf(value).Kind() {
-				return errTypeMismatch
-			}
-
-			target := reflect.New(baseType).Elem()
-			target.Set(reflect.ValueOf(value))
-			ithVal.Set(target.Addr())
-			return nil
-		}
-
-		if ithVal.Kind() != reflect.TypeOf(value).Kind() {
+		elem, ok := elemValueOf(ithVal.Type(), reflect.ValueOf(value))
+		if !ok {
 			return errTypeMismatch
 		}
 
-		ithVal.Set(reflect.ValueOf(value))
+		ithVal.Set(elem)
 		return nil
 	}
 }
@@ -376,31 +365,25 @@ func (u *Unmarshaler) generateMap(keyType, elemType reflect.Type, mapValue any) 
 			targetValue.SetMapIndex(key, innerValue)
 		default:
 			switch v := keythData.(type) {
-			case bool:
-				if dereffedElemKind != reflect.Bool {
-					return emptyValue, errTypeMismatch
-				}
-
-				targetValue.SetMapIndex(key, reflect.ValueOf(v))
-			case string:
-				if dereffedElemKind != reflect.String {
-					return emptyValue, errTypeMismatch
-				}
-
-				targetValue.SetMapIndex(key, reflect.ValueOf(v))
 			case json.Number:
 				target := reflect.New(dereffedElemType)
 				if err := setValue(dereffedElemKind, target.Elem(), v.String()); err != nil {
 					return emptyValue, err
 				}
 
-				targetValue.SetMapIndex(key, target.Elem())
+				if fieldElemKind == reflect.Ptr {
+					targetValue.SetMapIndex(key, target)
+				} else {
+					targetValue.SetMapIndex(key, target.Elem())
+				}
 			default:
-				if dereffedElemKind != keythValue.Kind() {
+				// bool、string 及其余同类值：须可赋值或可转换为元素类型（具名类型、指针元素）。
+				elem, ok := elemValueOf(elemType, reflect.ValueOf(v))
+				if !ok {
 					return emptyValue, errTypeMismatch
 				}
 
-				targetValue.SetMapIndex(key, keythValue)
+				targetValue.SetMapIndex(key, elem)
 			}
 		}
 	}
@@ -868,6 +851,31 @@ func derefContainer(fieldType reflect.Type, value reflect.Value) (reflect.Type, 
 
 	maybeNewValue(fieldType, value)
 	return fieldType.Elem(), value.Elem()
+}
+
+// elemValueOf 把文档中的值 v 变成 elemType 类型的切片/字典元素：类型相同直接使用，同类的具名类型做转换，
+// 指针元素新建后取地址；v 无效（nil）、不同类或不可转换时返回 false。
+func elemValueOf(elemType reflect.Type, v reflect.Value) (reflect.Value, bool) {
+	if !v.IsValid() {
+		return emptyValue, false
+	}
+
+	baseType := Deref(elemType)
+	if !v.Type().AssignableTo(baseType) {
+		if v.Kind() != baseType.Kind() || !v.Type().ConvertibleTo(baseType) {
+			return emptyValue, false
+		}
+
+		v = v.Convert(baseType)
+	}
+
+	if elemType.Kind() != reflect.Ptr {
+		return v, true
+	}
+
+	target := reflect.New(baseType)
+	target.Elem().Set(v)
+	return target, true
 }
 
 func fillDurationValue(fieldKind reflect.Kind, value reflect.Value, dur string) error {
